@@ -166,13 +166,25 @@ def make_cell():
 
 def inconsistent(rng):
     """decoded-looking data whose overrides leave a gap or collide"""
-    k = rng.randrange(5)
+    k = rng.randrange(10)
     base = dict(filename='<c03>', first_line_number=1, name='g', stacksize=1)
     L = lambda *ins: (tuple(Instruction(*a, line_number=1) for a in ins),)
     if k == 0: return CodeData(blocks=L(('LOAD_NAME', Name('a', rng.choice([1, 2, 7]))), ('RETURN_VALUE',)), **base)
     if k == 1: return CodeData(blocks=L(('LOAD_CONST', Constant(1, 0)), ('LOAD_CONST', Constant(True, 0)), ('RETURN_VALUE',)), **base)
     if k == 2: return CodeData(blocks=L(('LOAD_CONST', Constant(0.0, 0)), ('LOAD_CONST', Constant(-0.0, 0)), ('RETURN_VALUE',)), **base)
     if k == 3: return CodeData(blocks=L(('LOAD_NAME', Name('a', 0)), ('LOAD_NAME', Name('b', 0)), ('RETURN_VALUE',)), **base)
+    # an entry pinned to position p, then an un-pinned entry when the table holds exactly p entries (it would be numbered
+    # p as well), the lower positions filled by later overrides so that no gap remains (seeded change C03-r3)
+    if k == 5: return CodeData(blocks=L(('LOAD_CONST', Constant('a', 1)), ('LOAD_CONST', Constant('b')), ('LOAD_CONST', Constant('z', 0)), ('RETURN_VALUE',)), **base)
+    if k == 6: return CodeData(blocks=L(('LOAD_NAME', Name('a', 1)), ('LOAD_NAME', Name('b')), ('LOAD_NAME', Name('z', 0)), ('RETURN_VALUE',)), **base)
+    if k == 7: return CodeData(blocks=L(('LOAD_FAST', Varname('a', 2)), ('LOAD_FAST', Varname('p')), ('LOAD_FAST', Varname('q')), ('LOAD_FAST', Varname('b')),
+                                        ('LOAD_FAST', Varname('z', 3)), ('RETURN_VALUE',)), type=Function(), **base)
+    if k == 8: return CodeData(blocks=L(('LOAD_CONST', Constant(0.0, 1)), ('LOAD_CONST', Constant(-0.0)), ('LOAD_CONST', Constant(None, 0)), ('RETURN_VALUE',)), **base)
+    if k == 9:
+        p = rng.randrange(1, 6)
+        ins = [('LOAD_CONST', Constant('pinned', p))] + [('LOAD_CONST', Constant('free%d' % i)) for i in range(p + 1)]
+        ins += [('LOAD_CONST', Constant('fill%d' % i, i)) for i in range(0)] + [('RETURN_VALUE',)]
+        return CodeData(blocks=L(*ins), **base)
     return CodeData(blocks=L(('LOAD_CONST', Constant('x', 3)), ('LOAD_CONST', Constant('y', None)), ('RETURN_VALUE',)), **base)
 
 
@@ -182,6 +194,14 @@ def edited_decoded(rng):
     c = [k for k in corpus.all_code(compile(src, '<c03>', 'exec')) if k.co_name == 'f'][0]
     d = CodeData.from_code(c)
     flat = list(d.blocks[0])
+    if rng.random() < .3:
+        # decoded data in which a constant is pinned (the unused None sits at position 0); the user adds a new constant
+        c = (lambda: 'a').__code__
+        d = CodeData.from_code(c)
+        flat = list(d.blocks[0])
+        flat.insert(1, Instruction('LOAD_CONST', Constant(rng.choice(['b', 1, 1.0, b'a'])), line_number=flat[0].line_number))
+        flat.insert(2, Instruction('POP_TOP', line_number=flat[0].line_number))
+        return dataclasses.replace(d, blocks=(tuple(flat),))
     i = rng.randrange(len(flat) - 1)
     del flat[i]
     return dataclasses.replace(d, blocks=(tuple(flat),), _additional_args=() if rng.random() < .5 else d._additional_args)
